@@ -540,7 +540,7 @@ func GenSchedPlan(seed uint64, idx int, prop string) *plan.SchedPlan {
 			if nObj > 0 {
 				oi = r.Intn(nObj)
 				di = base[oi]
-				if r.Chance(0.3) {
+				if r.Chance(0.15) {
 					di = r.Intn(nData)
 				}
 			} else if nLocal == 0 {
